@@ -63,6 +63,12 @@ EXEMPT_LOCALS = {
         "the pieces after the first ';' are endpoint mappings (method/path>topic); the address is the first piece",
 }
 
+# attribute reads that hand out a piece of a URI without its scheme (one symbol each, with the reason)
+CUT_ATTRS = {
+    'netloc': "urlparse: 'user:password@host:port', the scheme is gone",
+    'username': 'urlparse: the user name itself',
+    'password': 'urlparse: the password itself',
+}
 LOG_LEVELS = {'debug', 'info', 'warning', 'warn', 'error', 'critical', 'exception', 'log', 'fatal'}
 BASE_URI_FIELDS = {'sources', 'outputs', 'source', 'output'}
 CONTAINER_TYPES = ({'str'}, {'list', 'tuple'}, {'dict'})
@@ -488,7 +494,9 @@ class _Analysis:
                 if h.name:
                     e[h.name] = lab
                     e['<excorigin>' + h.name] = list(caught)     # which raises the handler's exception object may come from (keys the report of a handler that logs it)
+                e['<handling>'] = list(caught)                   # the exception in flight inside this handler: `exc_info=True` / logger.exception() print its text with the traceback
                 self.block(h.body, e)
+                e.pop('<handling>', None)
                 self.join_into(env, env, e)
                 if h.type is None or U(h.type) in ('Exception', 'BaseException') or (isinstance(h.type, ast.Tuple) and any(U(x) in ('Exception', 'BaseException') for x in h.type.elts)):
                     handled_all = True
@@ -776,6 +784,8 @@ class _Analysis:
                 return EMPTY
             if node.attr in self.eng.uri_fields and SRC in bl:
                 return bl | frozenset([URI])
+            if node.attr in CUT_ATTRS:
+                return bl | frozenset([NOSCHEME])      # urlparse(uri).netloc is 'user:pw@host': the credential without the scheme the masks anchor on
             return bl
         # unknown receiver: helper-class attribute of that name (joined over the helper classes that define it)
         lab = EMPTY
@@ -806,6 +816,12 @@ class _Analysis:
     def ev_Subscript(self, node, env):
         bl = self.ev(node.value, env)
         self.ev(node.slice, env)
+        # x.rsplit('@', 1)[-1] / x.split('@')[-1] / x.rpartition('@')[2]: what follows the last '@' - the userinfo (credential) is cut away, host and path remain
+        v = node.value
+        if bl and isinstance(v, ast.Call) and isinstance(v.func, ast.Attribute) and v.args and isinstance(v.args[0], ast.Constant) and v.args[0].value == '@' and isinstance(node.slice, (ast.Constant, ast.UnaryOp)):
+            idx = node.slice.value if isinstance(node.slice, ast.Constant) else (-node.slice.operand.value if isinstance(node.slice.op, ast.USub) and isinstance(node.slice.operand, ast.Constant) else None)
+            if (v.func.attr in ('rsplit', 'split') and idx == -1) or (v.func.attr == 'rpartition' and idx in (2, -1)):
+                return EMPTY
         if bl and isinstance(node.slice, ast.Constant) and isinstance(node.slice.value, str) and node.slice.value in self.eng.clean_fields():
             return EMPTY
         if bl and SRC in bl and isinstance(node.slice, ast.Constant) and node.slice.value in self.eng.uri_fields:
@@ -894,6 +910,7 @@ class _Analysis:
                 return allargs
             if f.id[:1].isupper() and allargs:
                 self.eng.external_clean_calls[f.id] = self.eng.external_clean_calls.get(f.id, 0) + 1
+            self._external_may_raise(node, allargs)
             return EMPTY
         if isinstance(f, ast.Attribute):
             recv = self.ev(f.value, env)
@@ -937,8 +954,16 @@ class _Analysis:
             if allargs or recv:
                 name = U(f)[-40:]
                 self.eng.external_clean_calls[name] = self.eng.external_clean_calls.get(name, 0) + 1
+            self._external_may_raise(node, allargs)
             return EMPTY
         return EMPTY
+
+    def _external_may_raise(self, node, allargs):
+        """A library call inside a try body may fail with its arguments in the message (open() names the file, botocore the bucket, requests the URL). Only
+        arguments that a sanitizer could no longer clean are followed - a piece of a configuration URI with its scheme cut off; a whole URI in such a message
+        is what `hide_uri_users_and_pwds(str(exc))` in the handler takes care of."""
+        if self.handler_stack and NOSCHEME in allargs and (SRC in allargs or any(isinstance(l, tuple) for l in allargs)):
+            self._add_raise(node, self.fi.mod, frozenset(allargs))      # placeholders are resolved at the call sites of this function
 
     def _bind_args(self, fi: FnInfo, node: ast.Call, args, kwargs, skip_self: bool):
         params = fi.params[1:] if skip_self and fi.params else list(fi.params)
@@ -1084,6 +1109,11 @@ class _Analysis:
             kind, allargs = 'frame-meta', args[0]
         elif fname in ('emit_start', 'update_heartbeat_lineage'):
             kind, allargs = 'lineage', kwargs.get('facets', EMPTY) | (args[0] if args else EMPTY)
+        if kind == 'log' and isinstance(env.get('<handling>'), list) and (fname == 'exception' or any(k.arg == 'exc_info' and not (isinstance(k.value, ast.Constant) and not k.value.value) for k in node.keywords)):
+            # the traceback that goes out with this line ends in the unmasked text of the exception being handled
+            for (rn, rmod, rl) in env['<handling>']:
+                if rl:
+                    self.sum.sinks.append((_ExcSink(node, rn), self.fi.mod, kind, frozenset(rl), f'{U(node)[:80]} [traceback] <- {rmod.relpath.rsplit("/", 1)[-1]}: {U(rn)[:120]}'))
         if kind == 'log' and len(node.args) == 1 and isinstance(node.args[0], ast.Name) and isinstance(env.get('<excorigin>' + node.args[0].id), list):
             # logging the exception object of the enclosing handler: one report per raise it can come from, so that each origin is a finding of its own
             for (rn, rmod, rl) in env['<excorigin>' + node.args[0].id]:
